@@ -175,11 +175,15 @@ def check_pushforward(ctx, c):
             ctx.fail({"what": "zinnharvey-connectivity", "kind": kind}, f"not monotone in |z| for conn={c['conn']}")
     elif kind == "force_moments":
         rng = np.random.default_rng(c["pseed"])
-        data = rng.normal(mu, sig, size=777) ** 1
+        # data far from the origin compared with their spread (heads in m a.s.l., temperatures in K): mean/std up to 3e7
+        ratio = float(rng.choice([0.0, 0.0, 1e3, 1e6, 3e7]))
+        data = rng.normal(mu, sig, size=777) + ratio * sig
         t = tf.array_force_moments(data, mean=c["tmean"], var=c["tvar"])
         e1 = abs(float(np.mean(t)) - c["tmean"]) / max(1.0, abs(c["tmean"]), math.sqrt(c["tvar"]))
         e2 = abs(float(np.var(t)) - c["tvar"]) / c["tvar"]
-        bad("force_moments", max(e1, e2), 1e-12)
+        # the input mean is known to eps*|mean|: the output mean moves by that times the scale factor; the variance does not
+        bad("force_moments(mean)", e1, 1e-12 + 8 * 2.3e-16 * ratio)
+        bad("force_moments(var)", e2, 1e-11)
         # order and shape preserved (affine, increasing)
         if not np.array_equal(np.argsort(t, kind="stable"), np.argsort(data, kind="stable")):
             ctx.fail({"what": "force_moments-order", "kind": kind}, "ranks changed")
